@@ -82,6 +82,7 @@ MenuOwnEnum == Installs({"cA", "cB"}, B, F, F, B, F) \cup Upgrades({"cB", "cL"},
 \* ownership family (C07)
 \* (cS: a CLUSTER-SCOPED custom object r4 in the manifest)
 MenuOwn == Installs({"cA", "cB", "cL", "cS"}, B, F, F, B, F) \cup Upgrades({"cB", "cC", "cL", "cA", "cS"}, F, F, {0}, F, B, F)
+           \cup {[U("install", c) EXCEPT !.createNS = TRUE, !.takeown = t] : c \in {"cA", "cB"}, t \in B}
            \cup Uninstalls(F, F, F) \cup Rollbacks({0}, {0}, F, F, F)
 \* hooks family (C12)
 Tests == {U("test", "none")}
